@@ -26,6 +26,11 @@ def run(ck, an, tier):
     d = Renamed(ck, "C05:")
     ledger.marking_equations(d, an, {"equations", "margin"})      # the NLV tested is the liquidation-side, marked-to-market value
     ledger.valuation_formulas(d, an, {"nlv"})
+    # the adverse quote must reach the valuation: every given price becomes a quote, and every quote for a live book updates it
+    from rules import C18, C14
+    C18.s1(ledger._Only(Renamed(ck, "C18:"), {"every-price-row", "every-price-column", "quote-recorded"}), an)
+    C14.s2(Renamed(ck, "C14:"), an)
+    C14.s3(Renamed(ck, "C14:"), an)
     silent(ck, an)
     exc_class(ck, an)
     s1(ck, an)
